@@ -817,3 +817,53 @@ def hedge_replay(r):
         return out
     finally:
         sh.ESSearchWM, sh.ESSearchELL = saved
+
+
+# =============================================================================== the programs regenerated from the source (A.23)
+REQUIRES_SRC = REQUIRES + ["PV.Model.ESSrc", "PV.gen.Src_es"]
+SRC_OK = {"mask": "mask_case_ok_with src_mask", "maskr": "mask_plain_ok_with src_mask", "es": "es_case_ok_with src_gen src_ret",
+          "hedge": "hedge_case_ok_with src_hedge"}
+
+
+def src_generated_ok():
+    """gen/Src_es.v was generated from the current source (not poisoned) and builds"""
+    from vlib import core
+    p = core.COQ / "gen" / "Src_es.v"
+    if not p.exists() or "Definition src_mask " not in p.read_text():
+        return False
+    ok, _ = core.coq_make(["gen/Src_es.vo"])
+    return ok
+
+
+def run_cases_both(name, case_ty, ok_fun, ok_fun_src, cases, shard=400, timeout=900):
+    """Like core.run_cases, but every shard is evaluated twice on the SAME literals: by the hand-written model (ok_fun) and by
+    the program regenerated from the source (ok_fun_src).  Returns (compiled, bad_model, bad_src, log)."""
+    from concurrent.futures import ThreadPoolExecutor
+    from vlib import core
+    tg = [r[3:].replace(".", "/") + ".vo" for r in REQUIRES_SRC if r.startswith("PV.")]
+    okb, logb = core.coq_make(tg)
+    if not okb:
+        return False, [], [], "required modules do not build:\n" + logb[-2000:]
+    shards = [cases[i:i + shard] for i in range(0, len(cases), shard)] or [[]]
+
+    def one(k):
+        body = f"\nDefinition the_cases : list ({case_ty}) := " + core.clist(["\n  " + c for c in shards[k]]) + ".\n"
+        body += f"Eval vm_compute in (bad_indices ({ok_fun}) the_cases).\n"
+        body += f"Eval vm_compute in (bad_indices ({ok_fun_src}) the_cases).\n"
+        ok, out = core.coq_eval(f"{name}_{k}", REQUIRES_SRC, body, timeout=timeout)
+        ev = core.split_evals(out) if ok else []
+        lists = [core.parse_nat_list(e) for e in ev]
+        if not ok or len(lists) != 2 or any(x is None for x in lists):
+            return False, None, None, out
+        return True, lists[0], lists[1], out
+    with ThreadPoolExecutor(max_workers=min(12, len(shards))) as ex:
+        res = list(ex.map(one, range(len(shards))))
+    allok, bm, bs, log = True, [], [], ""
+    for k, (ok, a, b, out) in enumerate(res):
+        if not ok:
+            allok = False
+            log += f"[shard {k}] coqc failed:\n{out[-3000:]}\n"
+        else:
+            bm += [k * shard + i for i in a]
+            bs += [k * shard + i for i in b]
+    return allok, bm, bs, log
